@@ -89,6 +89,8 @@ pub enum Ev {
 pub struct MapWorld<K: KeyT, V: ValT> {
     pub slots: Vec<MapSlot<K, V>>,
     pub ctx: RunCtx,
+    /// C13: peak live size per slot and the allocation a fresh with_capacity(peak) needs
+    pub peak: Vec<(usize, usize)>,
 }
 
 macro_rules! vio {
@@ -103,12 +105,13 @@ fn new_map<K: KeyT, V: ValT>(plan: &Plan) -> SMap<K, V> {
 
 impl<K: KeyT, V: ValT> MapWorld<K, V> {
     pub fn new(cfg: Config) -> Self {
-        let slots = cfg
+        let slots: Vec<MapSlot<K, V>> = cfg
             .plans
             .iter()
             .map(|p| MapSlot { map: Some(new_map::<K, V>(p)), model: MapModel::default(), plan: p.clone() })
             .collect();
-        MapWorld { slots, ctx: RunCtx::new(cfg) }
+        let n = slots.len();
+        MapWorld { slots, ctx: RunCtx::new(cfg), peak: vec![(0, 0); n] }
     }
 
     pub(crate) fn map(&self, si: usize) -> &SMap<K, V> {
@@ -306,6 +309,13 @@ impl<K: KeyT, V: ValT> MapWorld<K, V> {
             vio!(self, format!("len/{}", self.ctx.op_kind), "is_empty()={empty} with len()={len}");
         }
         if !self.ctx.functional() {
+            let mref = self.slots[si].map.as_ref().unwrap();
+            let nop = Op::new(Kd::Nop);
+            match self.ctx.call(&nop, || mref.iter().count()) {
+                Out::Ok(n) if n == len => {}
+                Out::Ok(n) => vio!(self, "byz/len-iter", "len()={len} but iter() yields {n}"),
+                _ => vio!(self, "byz/len-iter", "iter() panicked"),
+            }
             return self.check_alloc_balance();
         }
         let model = &self.slots[si].model;
@@ -321,6 +331,22 @@ impl<K: KeyT, V: ValT> MapWorld<K, V> {
         }
         if len as u32 <= self.ctx.cfg.sweep_below {
             self.sweep(si)?;
+        }
+        if self.ctx.cfg.churn_bound > 0 {
+            // C13: memory stays within a fixed multiple of what the peak live size needs
+            if len > self.peak[si].0 || self.peak[si].1 == 0 {
+                let p = len.max(self.peak[si].0).max(1);
+                let fresh: SMap<K, V> = HashMap::with_capacity_and_hasher_in(p, SimBuildHasher::new(Plan::Const0), SimAlloc);
+                self.peak[si] = (p, fresh.allocation_size());
+            }
+            let sz = self.map(si).allocation_size();
+            let bound = self.peak[si].1 * self.ctx.cfg.churn_bound as usize;
+            if sz > bound {
+                vio!(self, "churn/memory", "allocation_size()={sz} exceeds {} x {} bytes (what a fresh table for the peak live size {} needs) with {len} live elements", self.ctx.cfg.churn_bound, self.peak[si].1, self.peak[si].0);
+            }
+            if self.ctx.ops_executed > 2000 {
+                sim().probe(Probe::ChurnLong);
+            }
         }
         self.check_alloc_balance()
     }
@@ -392,7 +418,7 @@ impl<K: KeyT, V: ValT> MapWorld<K, V> {
         }
         let (live, nblocks, findings) = {
             let s = sim();
-            (crate::alloc::live_bytes(&s), s.blocks.len() as u64, crate::alloc::audit(&s))
+            (crate::alloc::live_bytes(&s), s.blocks.len() as u64, crate::alloc::audit_live(&s))
         };
         if let Some((c, d)) = findings.into_iter().next() {
             vio!(self, c, "{d}");
@@ -407,6 +433,11 @@ impl<K: KeyT, V: ValT> MapWorld<K, V> {
         let after = self.shape(si);
         let hashes = self.ctx.last_counts[Class::Hash as usize];
         self.ctx.note_transition(before, &after, hashes);
+        if !self.ctx.functional() {
+            // byzantine Hash/Eq: results are unspecified; the model only mirrors the stored instances
+            let act = self.actual(si);
+            self.slots[si].model.e = act.into_iter().map(|x| x.0).collect();
+        }
         self.check_slot(si)
     }
 
@@ -527,7 +558,14 @@ impl<K: KeyT, V: ValT> MapWorld<K, V> {
         let out = self.ctx.call(op, || m.insert(k, v));
         let Some(ret) = self.settle(out, si, fc)? else { return Ok(()) };
         let got = ret.as_ref().map(|o| (o.val(), o.serial()));
+        let ret_ok = ret.as_ref().map_or(true, |o| o.intact());
         drop(ret);
+        if !ret_ok {
+            vio!(self, "ledger/invalid-ref", "insert({kid}) returned a value that is not a live element");
+        }
+        if !self.ctx.functional() {
+            return Ok(());
+        }
         match present {
             Some(i) => {
                 let old = self.slots[si].model.e[i];
@@ -565,6 +603,9 @@ impl<K: KeyT, V: ValT> MapWorld<K, V> {
             Err(e) => Err((e.entry.key().serial(), e.entry.get().val(), e.entry.get().serial(), e.value)),
         });
         let Some(ret) = self.settle(out, si, fc)? else { return Ok(()) };
+        if !self.ctx.functional() {
+            return Ok(());
+        }
         match (present, ret) {
             (None, Ok(r)) => {
                 if r != (val, vs) {
@@ -589,6 +630,12 @@ impl<K: KeyT, V: ValT> MapWorld<K, V> {
         let newv = op.b as u32;
         let fc = self.fctx(si, op);
         let want = self.slots[si].model.get(kid);
+        if want.is_none() {
+            let sh = self.shape(si);
+            if sh.deleted > 0 && sh.growth_left == 0 {
+                sim().probe(Probe::LookupAbsentSaturated);
+            }
+        }
         let m = self.slots[si].map.as_mut().unwrap();
         let probe = K::make(kid);
         let view = K::view(kid);
@@ -732,6 +779,9 @@ impl<K: KeyT, V: ValT> MapWorld<K, V> {
             _ => self.ctx.call(op, || m.shrink_to_fit()),
         };
         let Some(()) = self.settle(out, si, fc)? else { return Ok(()) };
+        if !self.ctx.functional() {
+            return Ok(());
+        }
         let (cap1, size1) = {
             let m = self.map(si);
             (m.capacity(), m.allocation_size())
@@ -884,6 +934,9 @@ impl<K: KeyT, V: ValT> MapWorld<K, V> {
             sim().probe(Probe::ExtendGrow);
         }
         let Some(()) = self.settle(out, si, fc)? else { return Ok(()) };
+        if !self.ctx.functional() {
+            return Ok(());
+        }
         for t in toks {
             match self.slots[si].model.pos(t.0) {
                 Some(i) => {
@@ -1090,6 +1143,11 @@ impl<K: KeyT, V: ValT> MapWorld<K, V> {
         }
         let model = std::mem::take(&mut self.slots[si].model);
         if forget {
+            // a leaked drain leaves an empty, unallocated table behind: the old block is leaked with it
+            if size0 > 0 {
+                self.ctx.leaked_bytes += size0 as u64;
+                self.ctx.leaked_blocks += 1;
+            }
             // everything not yielded is leaked: exactly those, and the collection must be a valid empty one
             for e in &model.e {
                 if !g.iter().any(|x| x.kid == e.kid) {
@@ -1301,6 +1359,10 @@ impl<K: KeyT, V: ValT> MapWorld<K, V> {
             let m = self.slots[si].map.as_mut().unwrap();
             let out = self.ctx.call(op, || m.insert(k, v).is_some());
             let Some(was) = self.settle(out, si, fc)? else { return Ok(()) };
+            if !self.ctx.functional() {
+                done += 1;
+                continue;
+            }
             if was {
                 vio!(self, "ret/Insert", "insert({kid}) of an absent key returned Some");
             }
